@@ -55,6 +55,9 @@ func genRoundTripFile(rng *lib.Rand, idx uint64, noSources bool, longStrings ...
 	if idx%389 == 0 {
 		o.Phased = true // slices of 600-1100 (every fourth: 4500-9000) messages whose set fields change from phase to phase
 		o.PhasedLong = idx%(389*4) == 0
+		if idx%(389*8) == 389*4 {
+			o.PhasedMin, o.PhasedSpan, o.PhasedSlots = 16400, 3000, 1 // one slice of more than 2^14 messages
+		}
 	}
 	return lib.GenFile(rng, o), ft, arch
 }
